@@ -292,7 +292,8 @@ impl Monitor for M {
                     }
                 }
             }
-            if changed {
+            // (the interpreter has no futimens: the rewrite-and-reload history runs on the other engines)
+            if changed && !ctx.miri() {
                 let exp2 = expected_metadata(&model, &layout2);
                 let mut r2 = rng_before_emission.clone();
                 let texts2: Vec<String> = layout2.files.iter().map(|f| emit_file(&mut r2, f)).collect();
